@@ -747,6 +747,7 @@ int cif_parse_internal(struct scanner_s *scanner, int not_utf8, const char *extr
     scanner->buffer = (UChar *) malloc(BUF_SIZE_INITIAL * sizeof(UChar));
     scanner->buffer_size = BUF_SIZE_INITIAL;
     scanner->buffer_limit = 0;
+    scanner->cr_pending = CIF_FALSE;
 
     if (scanner->buffer == NULL) {
         SET_RESULT(CIF_MEMORY_ERROR);
@@ -3183,8 +3184,28 @@ static int get_more_chars(struct scanner_s *scanner) {
     } /* else just append to the currently buffered data */
 
     /* once EOF has been detected, don't attempt to read from the character source any more */
-    nread = scanner->at_eof ? 0 : scanner->read_func(scanner->char_source, scanner->buffer + scanner->buffer_limit,
-                scanner->buffer_size - scanner->buffer_limit, &read_error);
+    do {
+        nread = scanner->at_eof ? 0 : scanner->read_func(scanner->char_source, scanner->buffer + scanner->buffer_limit,
+                    scanner->buffer_size - scanner->buffer_limit, &read_error);
+
+        if ((nread > 0) && scanner->cr_pending) {
+            /*
+             * The previous fill ended with a CR, which has already been converted to LF.  If this fill starts with
+             * the LF of the same CR LF pair then that character must be dropped.
+             */
+            UChar *first = scanner->buffer + scanner->buffer_limit;
+
+            scanner->cr_pending = CIF_FALSE;
+            if (*first == UCHAR_NL) {
+                nread -= 1;
+                u_memmove(first, first + 1, nread);
+            } else {
+                break;
+            }
+        } else {
+            break;
+        }
+    } while (nread == 0);  /* cycles only if the whole fill consisted of the dropped LF */
 
     if (nread < 0) {
         return read_error;
@@ -3197,6 +3218,9 @@ static int get_more_chars(struct scanner_s *scanner) {
         UChar *bound = lead + nread;
         UChar *trail;
         UChar *dest;
+
+        /* a CR at the very end of this fill may be the first half of a CR LF pair completed by the next fill */
+        scanner->cr_pending = (*(bound - 1) == UCHAR_CR);
 
         do {
             lead = u_memchr(lead, UCHAR_CR, bound - lead);
